@@ -56,6 +56,16 @@ func init() {
 	probes["O53"] = probeO53
 	probes["O54"] = probeO54
 	probes["O55"] = probeO55
+	probes["O68"] = func() (bool, string) {
+		return guard(func() (bool, string) {
+			c, _ := ucfg.NewFrom(map[string]interface{}{"m": map[string]interface{}{"q": []interface{}{"v", "${nope}"}}}, append(append([]ucfg.Option{}, sepVar...), ucfg.MetaData(ucfg.Meta{Source: "f.yml"}))...)
+			var t struct {
+				M map[string]interface{} `config:"m"`
+			}
+			err := c.Unpack(&t, sepVar...)
+			return err == nil || !strings.Contains(err.Error(), "'m.q.1'"), fmt.Sprint(err)
+		})
+	}
 	probes["O67"] = func() (bool, string) {
 		return guard(func() (bool, string) {
 			c, _ := ucfg.NewFrom(map[string]interface{}{"c": "${nope}"}, append(append([]ucfg.Option{}, sepVar...), ucfg.MetaData(ucfg.Meta{Source: "f.yml"}))...)
